@@ -30,6 +30,7 @@
    between the attribute parts (`a{t}.c`), text under the haml / pug / slim formatters -- these are
    covered by the model/implementation correspondence and the oracle. *)
 From Coq Require Import String.
+From Emmet Require Import proofs.HrefProofs.
 From Emmet Require Import lib.Base lib.StrLit model.MarkupTokenizer model.MarkupParser model.MarkupConvert
      model.MarkupResolve proofs.ParserSpine proofs.TextSpec proofs.TextProofs proofs.TextParse proofs.TextLiteral
      proofs.TextConvert proofs.TextForest proofs.TextWrap proofs.TextWrapLeaf model.OutStream model.FormatHtml
@@ -217,7 +218,7 @@ Theorem C04_wrap_plain :
     ce_text env <> WNone -> quiet_all root ->
     convert env mr root =
       (let* children := convert (no_text env) mr root in
-       Ok (on_last_deepest (fun n => insert_text n (whole_text (ce_text env))) children)).
+       Ok (on_last_deepest (fun n => insert_wrap env n (whole_text (ce_text env))) children)).
 Proof. exact wrap_plain_full. Qed.
 Print Assumptions C04_wrap_plain.
 
@@ -228,7 +229,7 @@ Theorem C04_wrap_plain_unconsumed :
     conv_list env root
       (mkCst false (match mr with Some m => Z.of_N m | None => 1000000%Z end) [] false) = Ok (children, st) ->
     cs_text_inserted st = false ->
-    convert env mr root = Ok (on_last_deepest (fun n => insert_text n (whole_text (ce_text env))) children).
+    convert env mr root = Ok (on_last_deepest (fun n => insert_wrap env n (whole_text (ce_text env))) children).
 Proof. exact wrap_plain. Qed.
 Print Assumptions C04_wrap_plain_unconsumed.
 
@@ -239,6 +240,37 @@ Theorem C04_deepest_last_element :
     flatL d (on_last_deepest (fun n => insert_text n text) items) = map_last (pl_insert text) (flatL d items).
 Proof. exact insert_into_deepest_last. Qed.
 Print Assumptions C04_deepest_last_element.
+
+(* [insert_wrap] in C04_wrap_plain is insert_text followed, when the receiving element is an `a` and markup.href is
+   on (the default), by insert_href, which may fill an empty href attribute from a URL / e-mail address
+   (props/Href.v).  For the statement of C04 this changes nothing: the text goes into the element exactly as by
+   insert_text, name / repeater / children / `/` mark are kept, only the attribute list may differ ... *)
+Theorem C04_wrap_text_placed_as_by_insert_text :
+  forall (env : cenv) (n : anode) (t : str),
+    an_value (insert_wrap env n t) = an_value (insert_text n t) /\
+    an_name (insert_wrap env n t) = an_name n /\ an_repeat (insert_wrap env n t) = an_repeat n /\
+    an_children (insert_wrap env n t) = an_children n /\ an_self (insert_wrap env n t) = an_self n /\
+    an_attrs (insert_wrap env n t) =
+      if name_is (an_name n) s_a && ce_href env then href_attrs t (an_attrs n) else an_attrs n.
+Proof. exact insert_wrap_fields. Qed.
+Print Assumptions C04_wrap_text_placed_as_by_insert_text.
+
+(* ... and it IS insert_text when markup.href is off, or on any element not named `a` *)
+Theorem C04_wrap_href_off :
+  forall (env : cenv) (n : anode) (t : str), ce_href env = false -> insert_wrap env n t = insert_text n t.
+Proof. exact insert_wrap_off. Qed.
+Print Assumptions C04_wrap_href_off.
+Theorem C04_wrap_not_a :
+  forall (env : cenv) (n : anode) (t : str), name_is (an_name n) s_a = false -> insert_wrap env n t = insert_text n t.
+Proof. exact insert_wrap_not_a. Qed.
+Print Assumptions C04_wrap_not_a.
+
+(* "the deepest last element" for the step C04_wrap_plain takes, for ALL forests *)
+Theorem C04_deepest_last_element_wrap :
+  forall (env : cenv) (text : str) (items : list anode) (d : nat),
+    flatL d (on_last_deepest (fun n => insert_wrap env n text) items) = map_last (pl_wrap env text) (flatL d items).
+Proof. exact insert_wrap_into_deepest_last. Qed.
+Print Assumptions C04_deepest_last_element_wrap.
 
 (* wrap_implicit made concrete for X = `name{text}`: with `$#` anywhere in the text every copy carries
    its trimmed line at EACH `$#`; without, the line follows the text.  All line lists, all texts made of
